@@ -507,6 +507,10 @@ def plan(prop, tier, seed, find):
         for k in range(6 if tier == "quick" else 24):
             for fr in ("nodup", "simple"):
                 b.append(P(kind="fringe", fringe=fr, fill=(4 if k % 2 == 0 else 5), states=3, depths=2, seed=base + 300 + 3 * k, count=3, **(dict(max_paths=2500, max_secs=30) if tier == "quick" else lim)))
+        # fill / pop / re-push / drain: keys pushed again AFTER a pop has moved nodes around in the heap
+        for k in range(6 if tier == "quick" else 24):
+            for fr in ("nodup", "simple"):
+                b.append(P(kind="fringe", fringe=fr, fill=(3 if k % 2 == 0 else 4), repush=1, states=3, depths=2, seed=base + 400 + 3 * k, count=3, **(dict(max_paths=2500, max_secs=30) if tier == "quick" else lim)))
         # solver level: models whose state does not embed the depth, duplicate-free fringe
         fams = [dict(n=3, b=2, d=2, setnext=1, nsym=5, depth_free=1), dict(n=4, b=2, d=2, setnext=0, nsym=5, depth_free=1)]
         b += _solve_bundles(tier, seed, find, "C11", ["plain"], fams=fams, fringes=("nodup",), nseeds=(2 if tier == "quick" else 8))
